@@ -95,11 +95,11 @@ def render_schema_sql(doc, with_tables=True):
         s = 'CREATE ROP REF_ID R%d FROM %s %s (%s)' % (a['rel'], card(a['src_many'], a['src_cond']), a['src'],
                                                        ', '.join(a.get('src_keys_as') or a['src_keys']))
         if a['src_phrase']:
-            s += " PHRASE '%s'" % a['src_phrase']
+            s += " PHRASE '%s'" % a['src_phrase'].replace("'", "''")
         s += ' TO %s %s (%s)' % (card(a['tgt_many'], a['tgt_cond']), a['tgt'],
                                  ', '.join(a.get('tgt_keys_as') or a['tgt_keys']))
         if a['tgt_phrase']:
-            s += " PHRASE '%s'" % a['tgt_phrase']
+            s += " PHRASE '%s'" % a['tgt_phrase'].replace("'", "''")
         out.append(s + ';\n')
     for u in doc['uniques']:
         out.append('CREATE UNIQUE INDEX %s ON %s (%s);\n' % (u['name'], u['kind'],
